@@ -1,0 +1,11 @@
+//go:build verif
+
+// Contracts for package kernel, read as text by /verif/engine (govc); no code.
+
+package kernel
+
+//@ mode bv
+
+//@ func Memset(addr uintptr, value byte, size uintptr)
+//@   trusted
+//@   modifies mem
